@@ -264,11 +264,20 @@ pub fn run(ctx: &mut Ctx, dom: &str, a: &[Arg]) {
                 let d = DynSizedStructure::<TagHeader>::ref_from_slice(g.slice()).unwrap();
                 let t = d.cast::<ElfSectionsTag>();
                 match t.sections().next() {
-                    Some(s) => elf_type_name(s.section_type()).to_string(),
-                    None => "Unused".to_string(),
+                    Some(s) => (elf_type_name(s.section_type()).to_string(), s.section_type_raw()),
+                    None => ("Unused".to_string(), raw),
                 }
             });
-            ctx.ln("section_type", res_str(r));
+            match r {
+                Ok((ty, rawv)) => {
+                    ctx.ln("section_type", ty);
+                    ctx.ln("section_type_raw", format!("{}", rawv));
+                }
+                Err(()) => {
+                    ctx.ln("section_type", "PANIC");
+                    ctx.ln("section_type_raw", "PANIC");
+                }
+            }
         }
         "fb" => {
             let byte = a[0].n() as u8;
